@@ -113,6 +113,10 @@ func synTable(e influxql.Expr) string {
 // candidate strings: every string up to maxLen over the regex's own letters plus a foreign character and a line break
 func candidates(pattern string, maxLen int) []string {
 	alpha := map[rune]bool{'Z': true, '\n': true}
+	if strings.Contains(pattern, "(?i") || strings.Contains(pattern, "[sS]") || strings.Contains(pattern, "[kK]") {
+		// letters with a third case variant: long s, Kelvin sign
+		alpha['\u017f'], alpha['\u212a'], alpha['S'], alpha['K'] = true, true, true, true
+	}
 	for _, r := range pattern {
 		if r >= 'a' && r <= 'z' || r >= '0' && r <= '9' || r == 'A' {
 			alpha[r] = true
@@ -123,8 +127,8 @@ func candidates(pattern string, maxLen int) []string {
 		rs = append(rs, r)
 	}
 	sort.Slice(rs, func(i, j int) bool { return rs[i] < rs[j] })
-	if len(rs) > 6 {
-		rs = rs[:6]
+	if len(rs) > 8 {
+		rs = rs[:8]
 	}
 	out := []string{""}
 	prev := []string{""}
@@ -150,6 +154,8 @@ var c11Patterns = []string{
 	// case folding switched on INSIDE a capture group; empty character classes (match nothing)
 	"^((?i)abc)$", "^((?i:abc))$", "^x((?i)a)y$", "^(((?i)ab))(c|d)$", "^((?i)a)(b|c)$", "^(a(?i)b)$", "^((?i)a|b)$", "^((?-i)a)$", "(?i)^((?-i)a)$", "(?i)^((?-i:a)b)$",
 	"^[^\\s\\S]$", "^a[^\\w\\W]$", "^[^\\x00-\\x{10FFFF}](a|b)$", "^[^\\d\\D]b$", "^(a|[^\\s\\S])$", "^([^\\s\\S])$", "^a[^\\s\\S]?$",
+	// small negated classes: what is left includes the line feed; single folded letters with three case variants
+	"^[^\\S]$", "^[^\\S\\t]$", "^a[^\\S ]$", "^[^\\x00-\\x09\\x0b-\\x{10FFFF}]$", "^[^\\S]b$", "(?i)^s$", "(?i)^k$", "^(?i:s)$", "^[sS]$", "^[kK]$", "(?i)^ǅ$", "^[^\\D1-9]$",
 }
 
 func c11Exact(o *out, p string) {
@@ -159,7 +165,13 @@ func c11Exact(o *out, p string) {
 		return
 	}
 	simp := re.Simplify()
-	vals, ok := influxql.VerifMatchExactRegex(p)
+	var vals []string
+	var ok bool
+	if pn := safely(func() { vals, ok = influxql.VerifMatchExactRegex(p) }); pn != nil {
+		o.checked()
+		o.fail("", fmt.Sprintf("matchExactRegex panics on /%s/: %v", p, pn), map[string]interface{}{"op": "regex_exact", "text": p})
+		return
+	}
 	resp := "(0)"
 	if ok {
 		resp = "(1 " + textsSexp(vals) + ")"
